@@ -28,6 +28,12 @@ def header_stream(ctx, valid_cred):
         for L in LENS:
             items.append(("hdr/type%d/len%d-nobody" % (t, L), rig.hdr(t, 0, L)))
             items.append(("hdr/type%d/len%d-short" % (t, L), rig.hdr(t, 0, L) + rnd(rng, 7)))
+    # a header inside a header: the body of a type-1 (header) message is itself a header whose type/retry/length words are
+    # unpacked over the message's own; every inner type code, with and without a further body
+    for inner in range(256):
+        for ilen in (0, 11, 0x7FFFFFFF):
+            b = rig.hdr(inner, 0, ilen)
+            items.append(("nested/inner%d" % inner, rig.hdr(1, 0, len(b)) + b))
     # every truncation point of each well-formed body, for each of the real type codes
     for t, b in ((2, enc_body), (4, dec_body), (3, rsp_body), (5, decrsp), (6, authfd)):
         step = 1 if (ctx.thorough or len(b) < 64) else max(1, len(b) // 40)
